@@ -72,6 +72,19 @@ var ExprShapes = []string{
 	"not ( $right . a ? 1 )",
 	"$left . a ? 1 and $left . b ? $left . a",
 	"a , not ( $right . b ? $right . a )",
+	// 54-65: repeated parentheses and signs around signed, indexed, in and not operands
+	"- ( ( - a ) )",
+	"( ( - a ) ) [ 1 ]",
+	"- ( ( ( a ? b ) ) )",
+	"not ( ( ( a ) ) ) in ( 1 )",
+	"( ( a in ( 1 ) ) ) ? b",
+	"- - a",
+	"+ ( ( + a ) ) ? - ( ( - 1 ) )",
+	"a ? ( ( - b ) )",
+	"( ( a ) ) [ ( ( 1 ) ) ]",
+	"- ( ( a [ 1 ] ) )",
+	"( ( ( - 1 ) ) ) [ 1 ]",
+	"not ( ( not ( ( a ) ) ) ) ? ( ( b ) )",
 }
 
 func isBinaryOpKind(k parser.TokenKind) bool {
